@@ -326,6 +326,20 @@ def evaluate(ctx, cls, op, o, args, pkey=None, warm=False):
     if bad is None and cls == 'Polyface3D' and o.is_solid:
         if not r.is_solid or r.volume <= 0:
             bad = 'solid no longer outward facing (volume %r)' % (r.volume,)
+    if bad is None and cls == 'Polyface3D':
+        # the Face3D objects of the image are the images of the source's faces (as point sets, face by face)
+        if len(o.faces) != len(r.faces):
+            bad = 'number of faces changed'
+        for fi, (fo, fr) in enumerate(zip(o.faces, r.faces)):
+            if bad: break
+            rem = [X.fpt(p) for p in fr.vertices]
+            for e in [mp(X.fpt(p)) for p in fo.vertices]:
+                hit = [g for g in rem if X.pclose(e, g, TOL * _LOOSE, scale_)]
+                if not hit:
+                    bad = 'faces[%d] of the image lacks the mapped vertex %s of faces[%d] of the source%s' % (
+                        fi, tuple(float(c) for c in e), fi, ' (source had answered its properties before the transform)' if warm else '')
+                    break
+                rem.remove(hit[0])
     if bad is None and hasattr(r, 'to_dict') and hasattr(type(r), 'from_dict') and not isvec:
         # the image answers its derived properties like a fresh object built from the image's own defining data
         try:
